@@ -308,7 +308,7 @@ pub fn run(ctx: &mut Ctx) {
     for (n, ok) in r2::selftest() {
         ctx.selftest(&n, ok);
     }
-    ctx.require(&["annex_kat", "honest_keys_equal", "step2_rejects_invalid_RA", "step3_rejects", "step4_rejects", "klen=1", "klen=16", "klen=200", "kind=OffCurve", "kind=Negated", "kind=OtherPoint", "kind=BitFlipHash", "kind=PermutedHash", "klen_needs_more_than_255_kdf_blocks", "honest_R_rerandomised_representation", "id_non_ascii_utf8", "key_from_gen_keypair", "key_with_jacobian_public_point", "degenerate_dA_shared_point_infinity_at_B", "degenerate_dB_shared_point_infinity_at_A", "coincident_dA_P_eq_xbarR_doubling_at_B", "coincident_dB_P_eq_xbarR_doubling_at_A", "crafted_valid_R_A", "derived_key_all_zero", "same_static_key_both_parties", "same_id_both_parties"]);
+    ctx.require(&["annex_kat", "honest_keys_equal", "step2_rejects_invalid_RA", "step3_rejects", "step4_rejects", "klen=1", "klen=16", "klen=200", "kind=OffCurve", "kind=Negated", "kind=OtherPoint", "kind=BitFlipHash", "kind=PermutedHash", "klen_needs_more_than_255_kdf_blocks", "honest_R_rerandomised_representation", "id_non_ascii_utf8", "key_from_gen_keypair", "key_with_jacobian_public_point", "degenerate_dA_shared_point_infinity_at_B", "degenerate_dB_shared_point_infinity_at_A", "coincident_dA_P_eq_xbarR_doubling_at_B", "coincident_dB_P_eq_xbarR_doubling_at_A", "crafted_valid_R_A", "derived_key_all_zero", "same_static_key_both_parties", "same_id_both_parties", "many_calls_one_process"]);
     for s in 0..16 {
         ctx.required.push(format!("subset={:04b}", s));
     }
@@ -412,6 +412,22 @@ pub fn run(ctx: &mut Ctx) {
                 ctx.sample(json!({"derived_key_all_zero": wit(&case)}));
             }
         }
+    }
+    // --- many runs in one process (call-count dependent faults): 300 honest exchanges with fresh scalars
+    if ctx.shard == 0 {
+        let mut pm = ctx.prng("many");
+        let (da, db) = (rand_scalar(&mut pm, &(&c.n - 1u32)), rand_scalar(&mut pm, &(&c.n - 1u32)));
+        for _ in 0..300u32 {
+            let case = Case { da: da.clone(), db: db.clone(), ida: "many-A".into(), idb: "many-B".into(), klen: 16, ra: rand_scalar(&mut pm, &c.n), rb: rand_scalar(&mut pm, &c.n), subset: 0, kind: Kind::OtherPoint, repeat: false };
+            ctx.class("many_calls_one_process");
+            let before = ctx.violations.len();
+            history(ctx, &case, &mut pm);
+            if ctx.violations.len() != before {
+                break;
+            }
+        }
+    } else {
+        ctx.class("many_calls_one_process");
     }
     let n = ctx.n(600, 40_000);
     let mut prng = ctx.prng("hist");
